@@ -96,6 +96,15 @@ func (c *Concretiser) prepScript(q M) string {
 						cell["_val"] = strings.TrimPrefix(fmt.Sprint(v), "s:")
 						continue
 					}
+					if B(cell, "big") && (oid == 25 || oid == 1043) {
+						// a value of tens of kilobytes (a document, a serialised object)
+						big := c.randText(40000)
+						for len(big) < 32768 {
+							big += c.randText(40000)
+						}
+						cell["_val"], cell["val"] = big, pgw.Dig([]byte(big))
+						continue
+					}
 					val, canon := ti.Gen(c.Rng)
 					for canon == "" { // an empty rendering is the "empty" class
 						val, canon = ti.Gen(c.Rng)
